@@ -1448,6 +1448,11 @@ callf:
 				return lerr
 			}
 			fun, args = extractMarkTailRec(r)
+			if r.source != nil {
+				// the resumed call is the tail-call expression, not the call
+				// that first pushed this frame
+				env.loc = r.source
+			}
 			goto callf
 		}
 		return r
@@ -1566,7 +1571,7 @@ func (env *LEnv) funCall(ctx context.Context, fun, args *LVal) *LVal {
 
 	if npop > 0 {
 		verifOnTailElide(env.Runtime, npop)
-		return markTailRec(npop, fun, args)
+		return markTailRec(npop, fun, args, env.loc)
 	}
 
 callf:
@@ -1593,6 +1598,11 @@ callf:
 				return lerr
 			}
 			fun, args = extractMarkTailRec(r)
+			if r.source != nil {
+				// the resumed call is the tail-call expression, not the call
+				// that first pushed this frame
+				env.loc = r.source
+			}
 			goto callf
 		}
 	}
